@@ -23,6 +23,9 @@
 import ClairModel.Proofs.JsonBlob
 import ClairModel.Gen.OfflineImport
 
+-- every variable of a property statement is bound explicitly: a misspelt name is an error, not a new variable
+set_option autoImplicit false
+
 namespace ClairModel.Props.C16
 open ClairModel ClairModel.JsonBlob
 
